@@ -8,6 +8,19 @@ HERE = os.path.dirname(os.path.dirname(os.path.abspath(__file__)))
 ALL = ["C%02d" % i for i in range(1, 21)]
 
 CHECKS = {
+ "C14": dict(
+  category="exploration",
+  text="Two-sided acceptance oracle by construction: modules composed of random realisable snippets that sit ON the documented "
+       "boundaries (UInt/Int/Bcd of 1 and 64 bits, Float 32/64, enum fields at exactly maximum_bits, enum values at the edges of "
+       "8-bit / 64-bit signed and unsigned ranges, maximum_bits 1 and 64, 64-bit bits, multi-dimensional and automatic arrays, "
+       "explicit sizes, byte-order attributes incl. Null on one-byte fields and scoped $default, attributes in their allowed scopes, "
+       "inline types) must be accepted by front end and back end; 70% of modules additionally contain exactly one snippet one step "
+       "beyond a boundary (catalogue of 52 rules incl. reserved words sampled from compiler/front_end/reserved_words as field, "
+       "type, enum-value and virtual-field names, and a missing byte order) and must be rejected without a crash.",
+  note="Catalogue = my reading of the language reference, prelude.emb and the attribute tables; where the error points is not judged "
+       "here (C13/C16).",
+  technique="runtime acceptance monitoring with boundary-sitting positive class and one-step-beyond negative catalogue",
+  design_ref="5/C14"),
  "C12": dict(
   category="exploration",
   text="Reference-model monitor: generated scope trees (main module, optional imported module, module-level types, subtypes "
